@@ -33,6 +33,7 @@ from sa.microeval import Instance, Interp, NotEvaluable
 
 MOD = "common"
 MAXN = 7
+MAXN_THOROUGH = 9  # 3734 sets of pairs
 CODE = "abcdefghijklmnopqrstuvwxyz"
 LETTERS = "ACGUNRY"
 
@@ -206,7 +207,8 @@ def elements_eval(chk, fi) -> Optional[str]:
     for q in ("BpSeq.__stems_entries", "Stem.from_bpseq_entries"):
         if repo.has_func(MOD, q):
             anchors.append(repo.func(MOD, q))
-    cases: List[Tuple[int, List[Tuple[int, int]]]] = [(n, pm) for n in range(2, MAXN + 1) for pm in partial_matchings(n)] + [(len(t), pairs_of(t)) for t in SHAPES]
+    maxn = MAXN if getattr(chk, "tier", "quick") == "quick" else MAXN_THOROUGH
+    cases: List[Tuple[int, List[Tuple[int, int]]]] = [(n, pm) for n in range(2, maxn + 1) for pm in partial_matchings(n)] + [(len(t), pairs_of(t)) for t in SHAPES]
     try:
         for n, pm in cases:
             if True:
@@ -260,7 +262,7 @@ def elements_eval(chk, fi) -> Optional[str]:
         chk.ok(
             "elements-eval-coverage",
             fi.where,
-            f"BpSeq.elements interpreted on all {n_cases - len(SHAPES)} sets of pairs over 2..{MAXN} contiguous positions and {len(SHAPES)} larger named shapes up to {max(len(t) for t in SHAPES)} nt ({', '.join(f'{v} with a {k}' for k, v in shapes.items())}): stems = maximal stacked runs, hairpins = pairs "
+            f"BpSeq.elements interpreted on all {n_cases - len(SHAPES)} sets of pairs over 2..{maxn} contiguous positions and {len(SHAPES)} larger named shapes up to {max(len(t) for t in SHAPES)} nt ({', '.join(f'{v} with a {k}' for k, v in shapes.items())}): stems = maximal stacked runs, hairpins = pairs "
             "enclosing only unpaired nucleotides, loops are closed cycles with unpaired interiors, every unpaired nucleotide in exactly one interior, every strand text is the slice of sequence and dot-bracket; "
             "every statement of the interpreted code was reached and every condition took both truth values"
             + (f" (except {'; '.join(tolerated)}: an equality between two positions read from the input, no size or constant involved)" if tolerated else ""),
